@@ -46,7 +46,7 @@ structure MaxEntry where
   deriving Repr, DecidableEq, Inhabited
 
 /-- function update (used for the object store and the `defaultdict`) -/
-def upd {β : Type} (h : Nat → β) (a : Nat) (v : β) : Nat → β := fun x => if x = a then v else h x
+@[noinline] def upd {β : Type} (h : Nat → β) (a : Nat) (v : β) : Nat → β := fun x => if x = a then v else h x
 
 structure St where
   stack : List Nat
